@@ -1,7 +1,7 @@
 SPECIFICATION Spec
 CONSTANTS
   Fmt = "xml"
-  MaxFaults = 2
+  MaxFaults = 1
   WithTrunc = TRUE
   TruncAfterFault = TRUE
   ExportHist = FALSE
